@@ -69,11 +69,30 @@ def c10(ctx, spec):
     cfgs = [(1, 2, tr) for tr in range(16)] + [(1, 1, 0), (1, 1, 7), (1, 3, 0), (1, 3, 7)]
     hist_run(ctx, cfgs, T(ctx, 5000, 100000), extra=['--vary-alloc'], shards=1 if ctx.tier == 'quick' else 2)
 
+# ---------------------------------------------------------------------------------------------- C09
+def c09(ctx, spec):
+    import subprocess
+    ctx.build([dict(name='c09_d%d' % d, src='harness/c09_fault.cpp', cfg='asan_noleak', defs=['H_D=%d' % d]) for d in (1, 2, 3)])
+    th = ['--thorough'] if ctx.tier == 'thorough' else []
+    total = 0
+    for d in (1, 2, 3):
+        b = ctx.built['c09_d%d' % d]
+        if not b['ok']: continue
+        n = int(subprocess.run([b['bin'], '--list'] + th, stdout=subprocess.PIPE, env=ctx.run_env(b)).stdout.decode().strip() or 0); total += n
+        ctx.run_sharded('c09_d%d' % d, n, args=th, shards=min(8, n))
+    ctx.extra['scenarios'] = total; ctx.extra['injection_points_executed'] = ctx.counters.get('injection_points', 0)
+
 HIST_RULE = ('histories (3..12 steps quick, ..40 thorough) over a pool of 4 owning arrays of one (element type, rank, allocator traits): 26 operation kinds (sizing/fill/allocator-extended/copy/move/view/init-list/iterator constructors, copy/move/self assignment over '
              'every prior state, assignment from views/other element type/init lists/ranges, swap, decay, 3 reextent overloads, clear, ={}, reshape, assign(first,last), element writes, destroy); unique ids as values; extents 0..3. '
              'After EVERY step: each live array vs. its model value, storage ranges pairwise disjoint, live-object registry == sum of num_elements, outstanding blocks == non-empty arrays with matching sizes, block owner == get_allocator(), get_allocator() == what the traits prescribe. ')
 
 REGISTRY = {
+    'C09': dict(fn=c09, level='fault_enumeration', exhaustive=True,
+                rule='scenario = operation (29 kinds: every constructor form, copy/move ctor, copy/move assignment, assignment from view / other element type / init list / iterator pair, 3 reextents, clear, swap, decay, view assignment/fill/swap, static_array copy/move) x prior state of the target {empty, same extents, other extents} x shape (1-D 3; 2-D 2x2; 3-D 2x1x2; thorough adds 1, 5, 2x3, 3x1, 2x2x2), tracked<int> elements and a ledger allocator. '
+                     'A dry run counts the injection points of 7 kinds (allocation, element copy/move construction, copy/move assignment, value/default construction); then EVERY point k is made to throw in its own forked child, which checks: exception reaches the caller (no terminate), '
+                     'no-new-storage operations did not allocate, every survivor has extents == live elements in an outstanding block, is assignable and destructible, and the registry and ledger are empty afterwards. The enumeration is exhaustive for the scenario set in both tiers. '
+                     'distinct = scenario (operation, prior state, shape); non-trivial = the scenario has >= 1 injection point',
+                assumptions=['single fault per execution (no double faults)', 'initializer-list arguments allocate while being built: not judged as allocation by the operation']),
     'C04': dict(fn=c04, level='exploration', rule=HIST_RULE + 'C04 oracle: value model, disjoint storage, moves touch no element (special-member counters), moved-from sources empty and reusable. distinct = hash(op-kind sequence incl. prior-state class); non-trivial = >=3 steps incl. an assignment over existing state',
                 assumptions=['0-D arrays are exercised by a separate reduced harness (their interface lacks most operations)', 'an empty iterator pair for assign/ctor(first,last) is excluded (the library evaluates *first on it)']),
     'C06': dict(fn=c06, level='exploration', rule=HIST_RULE + 'C06 oracle: model intersection of old/new extents on index tuples for reextent (fill value or value-initialised; unspecified for trivially default-constructible without fill; the rvalue overload only has to produce the extents), no-op reextent keeps data_elements(), clear/={}/reshape/assign/init-list contents. distinct/non-trivial as C04',
